@@ -681,10 +681,11 @@ fn layout_differs(ctx: &mut Ctx, what: &str, detail: String) {
 }
 
 fn clip(s: &str) -> String {
-    if s.len() <= 300 {
+    let limit: usize = std::env::var("TVH_CLIP").ok().and_then(|v| v.parse().ok()).unwrap_or(300);
+    if s.len() <= limit {
         s.to_string()
     } else {
-        let mut end = 300;
+        let mut end = limit;
         while !s.is_char_boundary(end) {
             end -= 1;
         }
@@ -2067,6 +2068,435 @@ fn case_filtered_merge(ctx: &mut Ctx, sch: &Sch, k: Consts, sub: u64) {
 }
 
 // ------------------------------------------------------------------------------------------
+// documents added from JSON (`TantivyDocument::parse_json` / `from_json_object`)
+// ------------------------------------------------------------------------------------------
+
+/// a JSON value as the harness generates it: it knows the text it writes and, independently of
+/// tantivy's conversion, which typed value that text denotes
+#[derive(Clone, Debug)]
+enum JV {
+    Null,
+    Bool(bool),
+    /// an integer literal
+    Int(i128),
+    /// a non-integer literal (text as written, the double it denotes)
+    Flt(&'static str, f64),
+    Str(String),
+    /// a string in canonical UTC RFC 3339 form: a date inside a JSON field
+    DateStr(&'static str, i64),
+    Arr(Vec<JV>),
+    Obj(Vec<(String, JV)>),
+}
+
+const JSON_INTS: &[i128] = &[
+    0, 1, -1, 127, 128, 9007199254740991, 9007199254740992, 9007199254740993, -9007199254740993,
+    9223372036854775806, 9223372036854775807, 9223372036854775808, 9223372036854775809,
+    18446744073709551614, 18446744073709551615, -9223372036854775808, -9223372036854775807,
+    4294967295, 4294967296, 18446744073709551616, 123456789012345678901234567890, -9223372036854775809,
+];
+
+const JSON_FLOATS: &[(&str, f64)] = &[
+    ("1.0", 1.0), ("-0.0", -0.0), ("0.0", 0.0), ("1e3", 1000.0), ("2.5E-3", 0.0025), ("1.5", 1.5),
+    ("1.7976931348623157e308", f64::MAX), ("5e-324", 5e-324), ("-1e300", -1e300),
+    ("18446744073709551615.0", 18446744073709551616.0),
+    ("9223372036854775808.0", 9223372036854775808.0), ("1E+2", 100.0), ("0.1", 0.1), ("-2.2250738585072014e-308", -2.2250738585072014e-308),
+];
+
+const JSON_DATES_UTC: &[(&str, i64)] = &[
+    ("1970-01-01T00:00:00Z", 0),
+    ("2023-11-14T22:13:20.123456789Z", 1_700_000_000_123_456_789),
+    ("1969-12-31T23:59:59.5Z", -500_000_000),
+    ("2262-04-11T23:47:16Z", 9_223_372_036_000_000_000),
+    ("2000-02-29T17:30:00Z", 951_845_400_000_000_000),
+];
+
+/// (text given to a date field, nanoseconds, text `to_json` writes)
+const DATE_INPUTS: &[(&str, i64, &str)] = &[
+    ("1970-01-01T00:00:00Z", 0, "1970-01-01T00:00:00Z"),
+    ("1970-01-01T01:00:00+01:00", 0, "1970-01-01T00:00:00Z"),
+    ("2023-11-14T22:13:20.123456789Z", 1_700_000_000_123_456_789, "2023-11-14T22:13:20.123456789Z"),
+    ("1969-12-31T23:59:59.5Z", -500_000_000, "1969-12-31T23:59:59.5Z"),
+    ("2000-02-29T12:00:00-05:30", 951_845_400_000_000_000, "2000-02-29T17:30:00Z"),
+    ("2262-04-11T23:47:16Z", 9_223_372_036_000_000_000, "2262-04-11T23:47:16Z"),
+];
+
+/// (text given to an ip field, the address as u128, text `to_json` writes)
+const IP_INPUTS: &[(&str, u128, &str)] = &[
+    ("192.168.0.1", 281_473_913_978_881, "192.168.0.1"),
+    ("::1", 1, "::1"),
+    ("2001:db8::ff00:42:8329", 42_540_766_411_282_592_856_904_265_327_123_268_393, "2001:db8::ff00:42:8329"),
+    ("::ffff:10.0.0.1", 281_470_849_515_521, "10.0.0.1"),
+];
+
+fn base64_std(data: &[u8]) -> String {
+    const A: &[u8; 64] = b"ABCDEFGHIJKLMNOPQRSTUVWXYZabcdefghijklmnopqrstuvwxyz0123456789+/";
+    let mut out = String::new();
+    for chunk in data.chunks(3) {
+        let b = [chunk[0], *chunk.get(1).unwrap_or(&0), *chunk.get(2).unwrap_or(&0)];
+        let n = ((b[0] as u32) << 16) | ((b[1] as u32) << 8) | b[2] as u32;
+        out.push(A[(n >> 18) as usize & 63] as char);
+        out.push(A[(n >> 12) as usize & 63] as char);
+        out.push(if chunk.len() > 1 { A[(n >> 6) as usize & 63] as char } else { '=' });
+        out.push(if chunk.len() > 2 { A[n as usize & 63] as char } else { '=' });
+    }
+    out
+}
+
+fn jv_render(v: &JV, out: &mut String) {
+    match v {
+        JV::Null => out.push_str("null"),
+        JV::Bool(b) => out.push_str(if *b { "true" } else { "false" }),
+        JV::Int(n) => out.push_str(&n.to_string()),
+        JV::Flt(t, _) => out.push_str(t),
+        JV::Str(t) => out.push_str(&serde_json::to_string(t).unwrap()),
+        JV::DateStr(t, _) => out.push_str(&serde_json::to_string(t).unwrap()),
+        JV::Arr(vs) => {
+            out.push('[');
+            for (i, x) in vs.iter().enumerate() {
+                if i > 0 {
+                    out.push(',');
+                }
+                jv_render(x, out);
+            }
+            out.push(']');
+        }
+        JV::Obj(es) => {
+            out.push('{');
+            for (i, (k, x)) in es.iter().enumerate() {
+                if i > 0 {
+                    out.push(',');
+                }
+                out.push_str(&serde_json::to_string(k).unwrap());
+                out.push(':');
+                jv_render(x, out);
+            }
+            out.push('}');
+        }
+    }
+}
+
+/// the typed value an integer of a JSON document denotes: i64 if it fits, else u64 if it fits,
+/// else the nearest double
+fn int_value(n: i128) -> OwnedValue {
+    if n >= i64::MIN as i128 && n <= i64::MAX as i128 {
+        OwnedValue::I64(n as i64)
+    } else if n >= 0 && n <= u64::MAX as i128 {
+        OwnedValue::U64(n as u64)
+    } else {
+        OwnedValue::F64(n as f64)
+    }
+}
+
+/// what a value inside a JSON field must come back as
+fn jv_expect(v: &JV) -> OwnedValue {
+    match v {
+        JV::Null => OwnedValue::Null,
+        JV::Bool(b) => OwnedValue::Bool(*b),
+        JV::Int(n) => int_value(*n),
+        JV::Flt(_, f) => OwnedValue::F64(*f),
+        JV::Str(t) => OwnedValue::Str(t.clone()),
+        JV::DateStr(_, nanos) => OwnedValue::Date(DateTime::from_timestamp_nanos(*nanos)),
+        JV::Arr(vs) => OwnedValue::Array(vs.iter().map(jv_expect).collect()),
+        JV::Obj(es) => OwnedValue::Object(es.iter().map(|(k, x)| (k.clone(), jv_expect(x))).collect()),
+    }
+}
+
+fn num_value(v: &OwnedValue) -> J {
+    match v {
+        OwnedValue::I64(x) => J::Number((*x).into()),
+        OwnedValue::U64(x) => J::Number((*x).into()),
+        OwnedValue::F64(x) => serde_json::Number::from_f64(*x).map(J::Number).unwrap_or(J::Null),
+        _ => J::Null,
+    }
+}
+
+/// the JSON `to_json` must write for a value inside a JSON field
+fn jv_output(v: &JV) -> J {
+    match v {
+        JV::Null => J::Null,
+        JV::Bool(b) => J::Bool(*b),
+        JV::Int(n) => num_value(&int_value(*n)),
+        JV::Flt(_, f) => num_value(&OwnedValue::F64(*f)),
+        JV::Str(t) => J::String(t.clone()),
+        JV::DateStr(t, _) => J::String(t.to_string()),
+        JV::Arr(vs) => J::Array(vs.iter().map(jv_output).collect()),
+        JV::Obj(es) => J::Object(es.iter().map(|(k, x)| (k.clone(), jv_output(x))).collect()),
+    }
+}
+
+/// the `serde_json::Value` handed to `from_json_object` (built without going through text)
+fn jv_input(v: &JV) -> J {
+    match v {
+        JV::Int(n) => num_value(&int_value(*n)),
+        JV::DateStr(t, _) => J::String(t.to_string()),
+        JV::Arr(vs) => J::Array(vs.iter().map(jv_input).collect()),
+        JV::Obj(es) => J::Object(es.iter().map(|(k, x)| (k.clone(), jv_input(x))).collect()),
+        other => jv_output(other),
+    }
+}
+
+fn gen_jv(rng: &mut Rng, depth: usize) -> JV {
+    let leaf = depth == 0 || rng.chance(1, 2);
+    if leaf {
+        return match rng.below(10) {
+            0 => JV::Null,
+            1 => JV::Bool(rng.chance(1, 2)),
+            2 | 3 | 4 => JV::Int(*rng.pick(JSON_INTS)),
+            5 => JV::Int(rng.next_u64() as i128 - if rng.chance(1, 2) { 1i128 << 63 } else { 0 }),
+            6 => { let (t, f) = *rng.pick(JSON_FLOATS); JV::Flt(t, f) }
+            7 => { let (t, n) = *rng.pick(JSON_DATES_UTC); JV::DateStr(t, n) }
+            _ => JV::Str(gen_string(rng, 3)),
+        };
+    }
+    let width = rng.usize_below(5);
+    if rng.chance(1, 2) {
+        JV::Arr((0..width).map(|_| gen_jv(rng, depth - 1)).collect())
+    } else {
+        // keys in sorted order, so that every map implementation iterates them as written
+        JV::Obj((0..width).map(|i| (format!("k{i:02}{}", rng.pick(&["", "Δ", " x"])), gen_jv(rng, depth - 1))).collect())
+    }
+}
+
+struct JsonDoc {
+    /// top-level members, in sorted field-name order
+    members: Vec<(String, JV)>,
+    /// expected stored (field, value) pairs in document order
+    expected: Vec<(Field, OwnedValue)>,
+    /// expected `to_json` output
+    output: serde_json::Map<String, J>,
+}
+
+fn gen_json_doc(rng: &mut Rng, sch: &Sch) -> JsonDoc {
+    let name_of = |i: usize| sch.schema.get_field_name(sch.fields[i].field).to_string();
+    let mut members: Vec<(String, JV, Vec<OwnedValue>, Vec<J>, usize)> = vec![];
+    let nfields = 1 + rng.usize_below(8);
+    let mut chosen: Vec<usize> = (0..sch.fields.len()).collect();
+    rng.shuffle(&mut chosen);
+    chosen.truncate(nfields);
+    for fi in chosen {
+        let kind = sch.fields[fi].kind;
+        let nvals = if rng.chance(1, 3) { 1 + rng.usize_below(3) } else { 1 };
+        let mut jvs = vec![];
+        let mut exps = vec![];
+        let mut outs = vec![];
+        for _ in 0..nvals {
+            let (jv, exp, out): (JV, OwnedValue, J) = match kind {
+                Kind::Text | Kind::Str => {
+                    let t = if rng.chance(1, 6) { JSON_DATES_UTC[0].0.to_string() } else { gen_string(rng, 4) };
+                    (JV::Str(t.clone()), OwnedValue::Str(t.clone()), J::String(t))
+                }
+                Kind::U64 => {
+                    let n = *rng.pick(&[0u64, 1, u64::MAX, i64::MAX as u64 + 1, i64::MAX as u64, 9007199254740993, 1 << 32]);
+                    (JV::Int(n as i128), OwnedValue::U64(n), J::Number(n.into()))
+                }
+                Kind::I64 => {
+                    let n = *rng.pick(&[0i64, -1, i64::MIN, i64::MAX, 9007199254740993, -9007199254740993]);
+                    (JV::Int(n as i128), OwnedValue::I64(n), J::Number(n.into()))
+                }
+                Kind::F64 => {
+                    if rng.chance(1, 3) {
+                        // an integer literal in a float field
+                        let n = *rng.pick(&[0i128, 1, -1, 9007199254740993, 18446744073709551615, -9223372036854775808]);
+                        (JV::Int(n), OwnedValue::F64(n as f64), num_value(&OwnedValue::F64(n as f64)))
+                    } else {
+                        let (t, f) = *rng.pick(JSON_FLOATS);
+                        (JV::Flt(t, f), OwnedValue::F64(f), num_value(&OwnedValue::F64(f)))
+                    }
+                }
+                Kind::Bool => { let b = rng.chance(1, 2); (JV::Bool(b), OwnedValue::Bool(b), J::Bool(b)) }
+                Kind::Date => {
+                    let (t, nanos, out) = *rng.pick(DATE_INPUTS);
+                    (JV::Str(t.to_string()), OwnedValue::Date(DateTime::from_timestamp_nanos(nanos)), J::String(out.to_string()))
+                }
+                Kind::Facet => {
+                    let t = *rng.pick(&["/a/b", "/top", "/Δ/日本/x", "/a b/c"]);
+                    (JV::Str(t.to_string()), OwnedValue::Facet(Facet::from_text(t).unwrap()), J::String(t.to_string()))
+                }
+                Kind::Bytes => {
+                    let n = rng.usize_below(9);
+                    let b = rng.bytes(n);
+                    let t = base64_std(&b);
+                    (JV::Str(t.clone()), OwnedValue::Bytes(b), J::String(t))
+                }
+                Kind::Ip => {
+                    let (t, v, out) = *rng.pick(IP_INPUTS);
+                    (JV::Str(t.to_string()), OwnedValue::IpAddr(Ipv6Addr::from(v)), J::String(out.to_string()))
+                }
+                Kind::JsonIndexed | Kind::JsonStoredOnly => {
+                    let depth = 1 + rng.usize_below(3);
+                    let width = 1 + rng.usize_below(5);
+                    let obj = JV::Obj((0..width).map(|i| (format!("m{i:02}"), gen_jv(rng, depth))).collect());
+                    let e = jv_expect(&obj);
+                    let o = jv_output(&obj);
+                    (obj, e, o)
+                }
+            };
+            jvs.push(jv);
+            exps.push(exp);
+            outs.push(out);
+        }
+        let jv = if nvals == 1 && rng.chance(1, 2) { jvs[0].clone() } else { JV::Arr(jvs) };
+        members.push((name_of(fi), jv, exps, outs, fi));
+    }
+    members.sort_by(|a, b| a.0.cmp(&b.0));
+    let mut expected = vec![];
+    let mut output = serde_json::Map::new();
+    for (name, _, exps, outs, fi) in &members {
+        if sch.fields[*fi].stored {
+            for e in exps {
+                expected.push((sch.fields[*fi].field, e.clone()));
+            }
+            output.insert(name.clone(), J::Array(outs.clone()));
+        }
+    }
+    JsonDoc { members: members.into_iter().map(|(n, jv, _, _, _)| (n, jv)).collect(), expected, output }
+}
+
+/// `to_json` of every live document, parsed back, against the JSON that was added
+fn check_json_views(ctx: &mut Ctx, index: &Index, sch: &Sch, outputs: &[serde_json::Map<String, J>], stage: &str, case: &J) -> bool {
+    let Ok(reader) = index.reader() else { return true };
+    let searcher = reader.searcher();
+    for (ord, seg) in searcher.segment_readers().iter().enumerate() {
+        let Ok(ids) = seg.fast_fields().u64("id") else { return true };
+        for d in 0..seg.max_doc() {
+            if !seg.alive_bitset().map(|b| b.is_alive(d)).unwrap_or(true) {
+                continue;
+            }
+            let id = ids.first(d).unwrap_or(u64::MAX) as usize;
+            let got = catch_unwind(AssertUnwindSafe(|| searcher.doc::<TantivyDocument>(DocAddress::new(ord as u32, d)).map(|doc| doc.to_json(&sch.schema))));
+            let text = match got {
+                Ok(Ok(t)) => t,
+                _ => {
+                    ctx.report.violation("oracle", "C09:doc-error", format!("{stage}: Searcher::doc / to_json failed for document id {id}"), case.clone());
+                    return false;
+                }
+            };
+            let parsed: Result<J, _> = serde_json::from_str(&text);
+            let want = J::Object(outputs[id].clone());
+            // serde_json compares 1 and 1.0 as different numbers, which is what is wanted here
+            if parsed.as_ref().ok() != Some(&want) {
+                ctx.report.violation("oracle", "C09:json-value-differs", format!("{stage}: to_json of document id {id} is {} but the JSON added was {}", clip(&text), clip(&want.to_string())), case.clone());
+                return false;
+            }
+            ctx.report.count("checked:json-view");
+        }
+    }
+    true
+}
+
+fn case_json_docs(ctx: &mut Ctx, sch: &Sch, k: Consts, sub: u64) {
+    let mut rng = Rng::new(sub);
+    let case = json!({"kind": "jsondoc", "sub": sub.to_string()});
+    let settings = IndexSettings {
+        docstore_compression: pick_compressor(&mut rng),
+        docstore_blocksize: pick_blocksize(&mut rng, k.default_bs),
+        docstore_compress_dedicated_thread: rng.chance(1, 2),
+        ..Default::default()
+    };
+    let via_map = rng.chance(1, 2);
+    let mut outputs: Vec<serde_json::Map<String, J>> = vec![];
+    let res = catch_unwind(AssertUnwindSafe(|| -> tantivy::Result<(Index, Expect)> {
+        let index = Index::create(RamDirectory::create(), sch.schema.clone(), settings)?;
+        let mut w: IndexWriter = index.writer_with_num_threads(1, 30_000_000)?;
+        w.set_merge_policy(Box::new(NoMergePolicy));
+        let mut exp = Expect { canon: vec![], docs: vec![] };
+        for _seg in 0..2 {
+            for _ in 0..1 + rng.usize_below(6) {
+                let jd = gen_json_doc(&mut rng, sch);
+                let mut doc = if via_map {
+                    let map: serde_json::Map<String, J> = jd.members.iter().map(|(n, v)| (n.clone(), jv_input(v))).collect();
+                    TantivyDocument::from_json_object(&sch.schema, map)
+                } else {
+                    let mut text = String::new();
+                    jv_render(&JV::Obj(jd.members.clone()), &mut text);
+                    TantivyDocument::parse_json(&sch.schema, &text)
+                }
+                .map_err(|e| tantivy::TantivyError::InvalidArgument(format!("document from JSON refused: {e:?}")))?;
+                let id = exp.canon.len();
+                doc.add_u64(sch.id, id as u64);
+                doc.add_u64(sch.sk, rng.below(50));
+                w.add_document(doc)?;
+                exp.canon.push(canon_fields(&jd.expected));
+                exp.docs.push(jd.expected);
+                outputs.push(jd.output);
+            }
+            w.commit()?;
+        }
+        drop(w);
+        Ok((index, exp))
+    }));
+    let (index, exp) = match res {
+        Ok(Ok(x)) => x,
+        Ok(Err(e)) => {
+            ctx.report.violation("oracle", "C09:json-doc-refused", format!("a valid JSON document was refused or could not be indexed: {e}"), case);
+            return;
+        }
+        Err(_) => {
+            ctx.report.violation("oracle", "C09:indexing-panic", "building / indexing a document from JSON panicked".into(), case);
+            return;
+        }
+    };
+    ctx.report.case(&format!("jsondoc|{sub}"), true);
+    ctx.report.count(if via_map { "json-doc:from_json_object" } else { "json-doc:parse_json" });
+    let deleted = vec![false; exp.canon.len()];
+    if !check_searcher(ctx, &mut rng, &index, sch, &exp, &deleted, "added from JSON, after commit", &case) {
+        return;
+    }
+    if !check_json_views(ctx, &index, sch, &outputs, "added from JSON, after commit", &case) {
+        return;
+    }
+    let merged = catch_unwind(AssertUnwindSafe(|| -> tantivy::Result<()> {
+        let mut w: IndexWriter = index.writer_with_num_threads(1, 30_000_000)?;
+        let ids = index.searchable_segment_ids()?;
+        w.merge(&ids).wait()?;
+        Ok(())
+    }));
+    match merged {
+        Ok(Ok(())) => {
+            if check_searcher(ctx, &mut rng, &index, sch, &exp, &deleted, "added from JSON, after merge", &case) {
+                check_json_views(ctx, &index, sch, &outputs, "added from JSON, after merge", &case);
+            }
+        }
+        Ok(Err(e)) => ctx.report.violation("oracle", "C09:merge-error", format!("merge failed: {e}"), case),
+        Err(_) => ctx.report.violation("oracle", "C09:merge-panic", "merge panicked".into(), case),
+    }
+}
+
+/// the number classification alone: `OwnedValue::from(serde_json::Value)` against the rule
+/// (oracle) and against the Lean `jsonNumber` (model)
+fn case_json_numbers(ctx: &mut Ctx) {
+    let mut ints: Vec<i128> = JSON_INTS.to_vec();
+    for _ in 0..40 {
+        ints.push(ctx.rng.next_u64() as i128 - if ctx.rng.chance(1, 2) { 1i128 << 63 } else { 0 });
+    }
+    for n in ints {
+        let case = json!({"kind": "jsonnum", "sub": "0"});
+        ctx.report.case(&format!("jsonnum|{n}"), true);
+        let got = catch_unwind(AssertUnwindSafe(|| {
+            let v: J = serde_json::from_str(&n.to_string()).unwrap();
+            let mut s = String::new();
+            canon_value(&OwnedValue::from(v), &mut s);
+            s
+        }));
+        let mut want = String::new();
+        canon_value(&int_value(n), &mut want);
+        match got {
+            Ok(g) => {
+                if g != want {
+                    ctx.report.violation("oracle", "C09:json-number-type", format!("the JSON number {n} becomes {g}, expected {want} (i64 if it fits, else u64 if it fits, else f64)"), case.clone());
+                }
+                let m = ctx.model.ask(&format!("C09 jsonnum {n}"));
+                let agree = if m == "F" { g.starts_with('F') } else { m == g };
+                if !agree {
+                    ctx.report.violation("model", "C09:json-number-model", format!("JSON number {n}: real {g} model {m}"), case);
+                }
+            }
+            Err(_) => ctx.report.violation("oracle", "C09:json-number-type", format!("converting the JSON number {n} panicked"), case),
+        }
+    }
+}
+
+// ------------------------------------------------------------------------------------------
 // phases, child processes
 // ------------------------------------------------------------------------------------------
 
@@ -2077,7 +2507,7 @@ fn plan(seed: u64, thorough: bool) -> Vec<(&'static str, Vec<(&'static str, u64)
         let mut r = Rng::new(seed ^ crate::report::fnv(name.as_bytes()));
         (0..n).map(|_| r.next_u64()).collect()
     };
-    let mut fixed: Vec<(&'static str, u64)> = vec![("vint", 0), ("vint32", 0), ("empty", 0)];
+    let mut fixed: Vec<(&'static str, u64)> = vec![("vint", 0), ("vint32", 0), ("empty", 0), ("jsonnum", 0)];
     for depth in [1u64, 2, 64, 127, 128, 300] {
         fixed.push(("deep", depth));
     }
@@ -2096,6 +2526,7 @@ fn plan(seed: u64, thorough: bool) -> Vec<(&'static str, Vec<(&'static str, u64)
         ("index2", subs("index2", b(12, 400)).into_iter().map(|s| ("index2", s)).collect()),
         ("filtered", subs("filtered", b(45, 1500)).into_iter().map(|s| ("filtered", s)).collect()),
         ("v1", subs("v1", b(6, 40)).into_iter().map(|s| ("v1", s)).collect()),
+        ("jsondoc", subs("jsondoc", b(60, 1500)).into_iter().map(|s| ("jsondoc", s)).collect()),
     ]
 }
 
@@ -2114,6 +2545,8 @@ fn run_case(ctx: &mut Ctx, sch: &Sch, k: Consts, kind: &str, sub: u64) {
         "index2" => case_index_two_rounds(ctx, sch, sub),
         "filtered" => case_filtered_merge(ctx, sch, k, sub),
         "v1" => case_v1_store(ctx, sch, sub),
+        "jsondoc" => case_json_docs(ctx, sch, k, sub),
+        "jsonnum" => case_json_numbers(ctx),
         other => ctx.report.notes.push(format!("unknown case kind {other}")),
     }
 }
@@ -2226,7 +2659,7 @@ fn abort_violation(ctx: &mut Ctx, mark: Option<J>, why: &str, fallback_case: J) 
 pub fn run(ctx: &mut Ctx) {
     ctx.report.rule = "cases = VInt values, codec documents (incl. value lengths on every VInt threshold), raw stores \
         (StoreWriter/StoreReader), stacked stores, whole indexes (segments × deletes × merge, sorted or not), filtered merges \
-        (merge_filtered_segments with custom alive bitsets), version-1 stores; non-trivial: a codec document with nesting or \
+        (merge_filtered_segments with custom alive bitsets), version-1 stores, documents added from JSON text / maps; non-trivial: a codec document with nesting or \
         ≥3 stored values, a store with ≥2 blocks, an index with nested/multi-valued documents and (several segments or deletes)".into();
     ctx.report.correspondence_obligations = vec![
         "VInt bytes: real = model, both directions".into(),
@@ -2243,6 +2676,7 @@ pub fn run(ctx: &mut Ctx) {
         "skip index bytes of real files (any compressor) = model SkipIndexBuilder; model seek on them = containing checkpoint".into(),
         "model iterRaw on real files with deletes = live documents".into(),
         "version-1 doc store: model deserializeDocV 1 = what the real reader returns before a merge".into(),
+        "JSON number classification: OwnedValue::from(serde_json::Value) = model jsonNumber".into(),
     ];
     // ---- child: one phase, or one replayed case, in this process -------------------------------
     if let Ok(phase) = std::env::var("TVH_C09_CHILD") {
